@@ -1,5 +1,5 @@
 (* C02 — dependencies (plan level): every dependency is placed in front of its dependent. *)
-From Shred Require Import Base SrcParams Plan PlanObs PlanInv PlanLoc PlanBuild PlanProps PlanLemmas Exec ExecProps ExecPlan BatchProps OracleProps.
+From Shred Require Import Base SrcParams Plan PlanObs PlanInv PlanLoc PlanBuild PlanProps PlanLemmas Exec ExecProps ExecPlan BatchProps OracleProps ExecObs TraceOracles ExecOracles.
 
 (* [runs_before b d s]: d sits in an earlier stage than s, or in the same group at a smaller
    index — in both cases d's run has ended before s begins in every execution of the layout
@@ -45,6 +45,19 @@ Theorem C02_oracle_deps_ordered_holds_on_model_layouts :
   forall rs b, plan rs = Ok b -> Forall reg_time_ok1 rs -> NoDup (sys_tags rs) -> o_deps_ordered rs (layout_tags b) = true.
 Proof. exact o_deps_ordered_on_model. Qed.
 Print Assumptions C02_oracle_deps_ordered_holds_on_model_layouts.
+
+(* ---- the run-time oracle `preds_done` on every RECORDED trace ---- *)
+Theorem C02_oracle_preds_done_meaning :
+  forall mp tr, o_preds_done mp tr = true ->
+  forall t1 t t2, tr = t1 ++ EF t :: t2 -> forall d, In d (mp t) -> In (ER d) t1.
+Proof. exact o_preds_done_meaning. Qed.
+Print Assumptions C02_oracle_preds_done_meaning.
+(* every model trace passes it, for the dependencies and the pre-barrier systems of the program *)
+Theorem C02_oracle_preds_done_holds_on_every_model_trace :
+  forall rs b t, plan rs = Ok b -> Forall reg_time_ok1 rs -> NoDup (sys_tags rs ++ tl_tags rs) ->
+  traces_disp (layout_tags b) (b_tl b) t -> o_preds_done (must_precede rs) t = true.
+Proof. exact preds_done_on_model_traces. Qed.
+Print Assumptions C02_oracle_preds_done_holds_on_every_model_trace.
 
 Example C02_example :
   let rs := [RSys 1 [97] [] [] [] 3%Z; RSys 2 [98] [[97]] [] [] 3%Z; RSys 3 [99] [[98]; [97]; [97]] [] [] 3%Z] in
